@@ -98,10 +98,17 @@ func (p propC04) Gen(r *Rng, tier string) *World {
 		name := PickS(r, []string{"and", "or", "&", "||"})
 		n := r.Range(60, 120) // flattening with the wrapper below must stay within 127
 		kids := make([]*Node, n)
+		main := g.by[TBool][r.Intn(len(g.by[TBool]))] // mostly one variable: often nothing decides
+		neutral := IsAndName(name)
 		for i := range kids {
-			if r.P(0.9) {
+			switch x := r.Intn(20); {
+			case x < 15:
+				kids[i] = Var(main)
+			case x < 17:
+				kids[i] = Lit(VB(neutral))
+			case x < 19:
 				kids[i] = Var(g.by[TBool][r.Intn(len(g.by[TBool]))])
-			} else {
+			default:
 				kids[i] = Lit(VB(r.P(0.5)))
 			}
 		}
